@@ -354,7 +354,42 @@ func validItem(r *vh.Rand) string {
 	return fmt.Sprintf("c:3:2:%d:+0:%s:%s", r.Intn(2), vh.Hex(be32(sid)), vh.Hex(b))
 }
 
+// genKeep: several frames with byte payloads on one Framer, later ones not longer than earlier ones — every frame
+// returned must still hold its own bytes after the later ones were read
+func genKeep(r *vh.Rand) string {
+	n := r.Range(2, 5)
+	size := r.Range(4, 40)
+	if r.Bool() {
+		p := []string{"rt"}
+		for i := 0; i < n; i++ {
+			switch r.Intn(6) {
+			case 0:
+				p = append(p, fmt.Sprintf("R:%d:0:%s", r.Range(1, 9), hdrField(genEntries(r))))
+			case 1:
+				p = append(p, fmt.Sprintf("G:0:%d.%d.%d,%d.%d.%d", r.Intn(3), r.Range(1, 8), r.Intn(100000), r.Intn(3), r.Range(1, 8), r.Intn(100000)))
+			default:
+				p = append(p, fmt.Sprintf("D:%d:%d:%s", r.Range(1, 9), r.Intn(2), vh.Hex(r.Bytes(size))))
+				size = r.Range(0, size)
+			}
+		}
+		return strings.Join(p, " ")
+	}
+	p := []string{"st"}
+	for i := 0; i < n; i++ {
+		if r.Chance(1, 4) {
+			p = append(p, validItem(r))
+			continue
+		}
+		p = append(p, fmt.Sprintf("d:%d:%d:+0:%s", r.Range(1, 9), r.Intn(2), vh.Hex(r.Bytes(size))))
+		size = r.Range(0, size)
+	}
+	return strings.Join(p, " ")
+}
+
 func gen(r *vh.Rand) string {
+	if r.Chance(1, 10) {
+		return genKeep(r)
+	}
 	if r.Chance(1, 6) {
 		return genAfterError(r)
 	}
